@@ -209,5 +209,46 @@ theorem serviceBody_bridge (nonStrict : Bool) (fs : Facts) (vars : List VarDef) 
   unfold C05.serviceBody
   simp only [C05.renderDoc, hroot, hroot', createVars_bridge, createActions_bridge]
 
+
+/-! ### relating the C14 judge's view to C05's mirror -/
+
+def seOf (sa se : Option Str) : Bool :=
+  match sa with
+  | some a => a == ['y', 'e', 's']
+  | none => match se with
+    | some e => e == ['y', 'e', 's']
+    | none => false
+
+theorem varOf_header (nonStrict : Bool) (sa se dt df nm : Option Str) (rg : Option (Option Str × Option Str))
+    (al : Option (List (Option Str))) (m : C05.VarM F) (h : C05.varOf fo tb nonStrict sa se dt df nm rg al = .ok m) :
+    m.name = C05.stripWs (nm.getD []) ∧ some m.dataType = dt
+    ∧ m.sendEvents = seOf sa se := by
+  unfold C05.varOf at h
+  cases dt with
+  | none => simp at h
+  | some d =>
+    simp only at h
+    cases hr : tb.row? d with
+    | none => simp [hr] at h
+    | some row =>
+      simp only [hr] at h
+      cases hs : C08.mkSchema fo tb row (!nonStrict)
+          { range := rg, allowed := al.map (C05.allowedTexts (row.ty == .str)), default := df } with
+      | error e => simp [hs] at h
+      | ok sc =>
+        simp only [hs, Except.ok.injEq] at h
+        subst h
+        exact ⟨rfl, rfl, rfl⟩
+
+/-- the variable object C05's mirror holds for the served description of `vd` carries the
+    definition's name, data type and evented flag — the untyped part of C14's `varMatches` -/
+theorem mirror_var_header (nonStrict : Bool) (fs : Facts) (vd : VarDef) (m : C05.VarM F)
+    (h : C05.mirrorVar fo tb nonStrict (specOfVar fs vd) = .ok m) :
+    m.name = C05.stripWs vd.name ∧ m.dataType = vd.dtype ∧ m.sendEvents = vd.evented := by
+  obtain ⟨h1, h2, h3⟩ := varOf_header fo tb nonStrict _ _ _ _ _ _ _ m h
+  refine ⟨by simpa [specOfVar] using h1, by simpa [specOfVar] using h2, ?_⟩
+  rw [h3]
+  cases hv : vd.evented <;> simp [specOfVar, hv, seOf] <;> decide
+
 end
 end Upnp.C14
